@@ -4,6 +4,7 @@
   Over the model of `BuildId::read_from_module` / `SoName::read_from_module` (Model/Elf.lean, slice mode):
 -/
 import MdwModel.Model.Elf
+import MdwModel.Theorems.CtxLayout
 namespace Mdw.Elf
 open Mdw
 
@@ -568,6 +569,408 @@ theorem C14_texthash_spec (b : Blob) (w : Win) (i : Nat) (hi : i < 16) :
     rw [List.getElem?_replicate]
     split <;> rfl
   rw [this, UInt8.zero_xor]
+
+/-! ### round trip: serialise a specification, read it back -/
+
+/-! bridge: reads of a list image are `fieldAt` / `sliceAt` of the list -/
+
+theorem readLE_ofList (l : Bytes) (off k : Nat) (h : off + k ≤ l.length) :
+    (Blob.ofList l).readLE off k = some (fieldAt l off k) := by
+  induction k generalizing off with
+  | zero => simp [Blob.readLE, fieldAt, unle]
+  | succ k ih =>
+    have hlt : off < l.length := by omega
+    simp only [Blob.readLE]
+    have hget : (Blob.ofList l).get off = some l[off] := by simp [Blob.ofList, hlt]
+    rw [hget, ih (off + 1) (by omega)]
+    simp only [fieldAt]
+    have : l.drop off = l[off] :: l.drop (off + 1) := by
+      rw [List.drop_eq_getElem_cons hlt]
+    rw [this, List.take_succ_cons, unle]
+
+theorem rdInt_ofList (l : Bytes) (w : Win) (off k : Nat) (h1 : off + k ≤ w.len) (h2 : w.base + w.len ≤ l.length) :
+    rdInt (Blob.ofList l) false w off k = some (fieldAt l (w.base + off) k) := by
+  unfold rdInt
+  simp only [h1, ↓reduceIte, Bool.false_eq_true]
+  exact readLE_ofList l (w.base + off) k (by omega)
+
+theorem slice_ofList (l : Bytes) (off k : Nat) (h : off + k ≤ l.length) :
+    (Blob.ofList l).slice off k = sliceAt l off k := by
+  rw [slice_eq]
+  unfold sliceAt
+  apply List.ext_getElem
+  · simp; omega
+  · intro i h1 h2
+    simp only [List.length_map, List.length_range] at h1
+    simp [Blob.ofList, List.getElem_take, List.getElem_drop, show off + i < l.length by omega]
+
+/-! the serialiser: a 64-bit little-endian image with one PT_NOTE segment of GNU-owned notes -/
+
+structure GnuNote where
+  ntype : Nat
+  desc : Bytes
+
+def pad4 (n : Nat) : Nat := (4 - n % 4) % 4
+
+def serNote (n : GnuNote) : Bytes :=
+  le 4 4 ++ (le 4 n.desc.length ++ (le 4 n.ntype ++ ([0x47, 0x4e, 0x55, 0] ++ (n.desc ++ zeros (pad4 n.desc.length)))))
+
+def serNotes (ns : List GnuNote) : Bytes := ns.flatMap serNote
+
+structure NoteElf where
+  entry : Nat
+  notes : List GnuNote
+  tail : Bytes
+
+def identBytes : Bytes := [0x7f, 0x45, 0x4c, 0x46, 2, 1, 1, 0, 0, 0, 0, 0, 0, 0, 0, 0]
+
+def serHeader (e : NoteElf) : Bytes :=
+  identBytes ++ (le 2 3 ++ (le 2 62 ++ (le 4 1 ++ (le 8 e.entry ++ (le 8 64 ++ (le 8 0 ++ (le 4 0 ++ (le 2 64 ++
+    (le 2 56 ++ (le 2 1 ++ (le 2 64 ++ (le 2 0 ++ le 2 0))))))))))))
+
+def serPhdr (e : NoteElf) : Bytes :=
+  le 4 4 ++ (le 4 4 ++ (le 8 120 ++ (le 8 120 ++ (le 8 120 ++ (le 8 (serNotes e.notes).length ++
+    (le 8 (serNotes e.notes).length ++ le 8 4))))))
+
+def ser (e : NoteElf) : Bytes := serHeader e ++ (serPhdr e ++ (serNotes e.notes ++ e.tail))
+
+theorem serHeader_length (e : NoteElf) : (serHeader e).length = 64 := by simp [serHeader, identBytes]
+theorem serPhdr_length (e : NoteElf) : (serPhdr e).length = 56 := by simp [serPhdr]
+theorem ser_length (e : NoteElf) : (ser e).length = 120 + (serNotes e.notes).length + e.tail.length := by
+  simp [ser, serHeader_length, serPhdr_length]; omega
+
+/-- walk to a field at a literal offset of a right-nested append -/
+macro "walk_field" : tactic => `(tactic|
+  (repeat (first
+     | (rw [fieldAt_head _ _ _ (by first | assumption | decide)]; done)
+     | (rw [fieldAt_skip _ _ _ _ (by simp only [le_length, zeros_len, List.length_cons, List.length_nil, identBytes]; decide)]
+        simp only [le_length, zeros_len, List.length_cons, List.length_nil, identBytes, Nat.reduceSub, Nat.reduceAdd]))))
+
+theorem hdr_fields (e : NoteElf) (he : e.entry < 256 ^ 8) :
+    fieldAt (ser e) 16 2 = 3 ∧ fieldAt (ser e) 18 2 = 62 ∧ fieldAt (ser e) 20 4 = 1 ∧ fieldAt (ser e) 24 8 = e.entry ∧
+    fieldAt (ser e) 32 8 = 64 ∧ fieldAt (ser e) 40 8 = 0 ∧ fieldAt (ser e) 48 4 = 0 ∧ fieldAt (ser e) 52 2 = 64 ∧
+    fieldAt (ser e) 54 2 = 56 ∧ fieldAt (ser e) 56 2 = 1 ∧ fieldAt (ser e) 58 2 = 64 ∧ fieldAt (ser e) 60 2 = 0 ∧
+    fieldAt (ser e) 62 2 = 0 := by
+  refine ⟨?_, ?_, ?_, ?_, ?_, ?_, ?_, ?_, ?_, ?_, ?_, ?_, ?_⟩ <;>
+    (unfold ser serHeader; simp only [List.append_assoc]; walk_field)
+
+theorem ser_get4 (e : NoteElf) : (Blob.ofList (ser e)).get 4 = some 2 := by
+  simp [Blob.ofList, ser, serHeader, identBytes]
+theorem ser_get5 (e : NoteElf) : (Blob.ofList (ser e)).get 5 = some 1 := by
+  simp [Blob.ofList, ser, serHeader, identBytes]
+theorem ser_magic (e : NoteElf) : (Blob.ofList (ser e)).slice 0 4 = [0x7f, 0x45, 0x4c, 0x46] := by
+  rw [slice_ofList _ _ _ (by rw [ser_length]; omega)]
+  simp [sliceAt, ser, serHeader, identBytes]
+
+def noteHdr : Hdr := ⟨⟨true, false⟩, 64, 0, 56, 1, 64, 0, 0⟩
+
+theorem parseHeader_ser (e : NoteElf) (he : e.entry < 256 ^ 8) :
+    parseHeader (Blob.ofList (ser e)) = .ok noteHdr := by
+  have hlen := ser_length e
+  obtain ⟨f1, f2, f3, f4, f5, f6, f7, f8, f9, f10, f11, f12, f13⟩ := hdr_fields e he
+  have hm : memRead (Blob.ofList (ser e)) 0 64 = .ok ⟨0, 64⟩ := by
+    unfold memRead
+    have : (Blob.ofList (ser e)).size = (ser e).length := rfl
+    simp [Blob.ofList, this, hlen]; omega
+  have rd : ∀ off k, off + k ≤ 64 →
+      rdInt (Blob.ofList (ser e)) false ⟨0, 64⟩ off k = some (fieldAt (ser e) off k) := by
+    intro off k h
+    have := rdInt_ofList (ser e) ⟨0, 64⟩ off k h (by simp [hlen]; omega)
+    simpa using this
+  unfold parseHeader
+  rw [hm]
+  simp only
+  unfold parseHeaderFields
+  simp only [Nat.zero_add, ser_magic, ser_get4, ser_get5, Option.getD_some]
+  simp [rd, f1, f2, f3, f4, f5, f6, f7, f8, f9, f10, f11, f12, f13, orErr, noteHdr]
+
+theorem phdr_fields (e : NoteElf) (hn : (serNotes e.notes).length < 256 ^ 8) :
+    fieldAt (ser e) 64 4 = 4 ∧ fieldAt (ser e) 68 4 = 4 ∧ fieldAt (ser e) 72 8 = 120 ∧ fieldAt (ser e) 80 8 = 120 ∧
+    fieldAt (ser e) 88 8 = 120 ∧ fieldAt (ser e) 96 8 = (serNotes e.notes).length ∧
+    fieldAt (ser e) 104 8 = (serNotes e.notes).length ∧ fieldAt (ser e) 112 8 = 4 := by
+  refine ⟨?_, ?_, ?_, ?_, ?_, ?_, ?_, ?_⟩ <;>
+    (unfold ser serHeader serPhdr; simp only [List.append_assoc]; walk_field)
+
+def notePhdr (e : NoteElf) : Phdr :=
+  ⟨4, 4, 120, 120, 120, (serNotes e.notes).length, (serNotes e.notes).length, 4⟩
+
+theorem readProgramHeaders_ser (e : NoteElf) (hn : (serNotes e.notes).length < 256 ^ 8) :
+    readProgramHeaders (Blob.ofList (ser e)) noteHdr = .ok #[notePhdr e] := by
+  have hlen := ser_length e
+  obtain ⟨f1, f2, f3, f4, f5, f6, f7, f8⟩ := phdr_fields e hn
+  have hm : memRead (Blob.ofList (ser e)) 64 56 = .ok ⟨64, 56⟩ := by
+    unfold memRead
+    simp [Blob.ofList, hlen]; omega
+  have rd : ∀ off k, off + k ≤ 56 →
+      rdInt (Blob.ofList (ser e)) false ⟨64, 56⟩ off k = some (fieldAt (ser e) (64 + off) k) := by
+    intro off k h
+    exact rdInt_ofList (ser e) ⟨64, 56⟩ off k h (by simp [hlen]; omega)
+  unfold readProgramHeaders
+  simp only [noteHdr, bind, Except.bind, Nat.mul_one, hm]
+  simp [parsePhdrs, phdrSize, parseMany, parsePhdr, rd, f1, f2, f3, f4, f5, f6, f7, f8, notePhdr]
+
+/-! notes -/
+
+theorem fieldAt_pre (pre rest : Bytes) (o k : Nat) : fieldAt (pre ++ rest) (pre.length + o) k = fieldAt rest o k := by
+  rw [fieldAt_skip pre rest _ _ (by omega)]; congr 1; omega
+
+theorem sliceAt_pre (pre rest : Bytes) (o k : Nat) : sliceAt (pre ++ rest) (pre.length + o) k = sliceAt rest o k := by
+  rw [sliceAt_skip pre rest _ _ (by omega)]; congr 1; omega
+
+theorem slice_succ (b : Blob) (i n : Nat) : b.slice i (n + 1) = (b.get i).getD 0 :: b.slice (i + 1) n := by
+  rw [slice_eq, slice_eq, List.range_succ_eq_map, List.map_cons, List.map_map]
+  congr 1
+  apply List.map_congr_left
+  intro a _; simp [Nat.add_assoc, Nat.add_comm 1 a]
+
+theorem utf8Valid_ascii (b : Blob) (n i fuel : Nat) (hf : n + 1 ≤ fuel)
+    (hsz : i + n ≤ b.size) (h : ∀ x ∈ b.slice i n, x < 0x80) : utf8Valid b (i + n) fuel i = true := by
+  induction n generalizing i fuel with
+  | zero =>
+    cases fuel with
+    | zero => omega
+    | succ fuel => simp [utf8Valid]
+  | succ n ih =>
+    cases fuel with
+    | zero => omega
+    | succ fuel =>
+      rw [slice_succ] at h
+      have hx : (b.get i).getD 0 < 0x80 := h _ (List.mem_cons_self ..)
+      unfold utf8Valid
+      have hlt : ¬ (i ≥ i + (n + 1)) := by omega
+      simp only [hlt, ↓reduceIte]
+      have hs : safeGet b (i + (n + 1)) i = (b.get i).getD 0 := by simp [safeGet]
+      have hstep : utf8Step (safeGet b (i + (n + 1))) i = (i + 1, true) := by
+        unfold utf8Step; simp only [hs, hx, ↓reduceIte]
+      rw [hstep]
+      have := ih (i + 1) fuel (by omega) (by omega) (fun x hx' => h x (List.mem_cons_of_mem _ hx'))
+      rw [show i + 1 + n = i + (n + 1) by omega] at this
+      exact this
+
+theorem alignUp4 (x : Nat) : alignUp 4 x = x + pad4 x := by
+  unfold alignUp pad4
+  by_cases h : x % 4 = 0
+  · simp [h]
+  · have : (x % 4 != 0) = true := by simpa using h
+    simp only [this, ↓reduceIte]
+    have : x % 4 < 4 := Nat.mod_lt _ (by decide)
+    omega
+
+theorem pad4_add16 (x : Nat) : pad4 (16 + x) = pad4 x := by unfold pad4; omega
+
+theorem serNote_length (n : GnuNote) : (serNote n).length = 16 + n.desc.length + pad4 n.desc.length := by
+  simp [serNote, zeros]; omega
+
+theorem serNotes_append (a b : List GnuNote) : serNotes (a ++ b) = serNotes a ++ serNotes b := by
+  simp [serNotes]
+
+theorem serNotes_cons (n : GnuNote) (r : List GnuNote) : serNotes (n :: r) = serNote n ++ serNotes r := by
+  simp [serNotes]
+
+def noteRec (base : Nat) (n : GnuNote) : Note :=
+  ⟨n.ntype, base + 12, 3, base + 16, n.desc.length, (serNote n).length⟩
+
+/-- the image with the notes split around one of them -/
+theorem ser_split (e : NoteElf) (done rest : List GnuNote) (n : GnuNote) (hn : e.notes = done ++ n :: rest) :
+    ∃ pre post, ser e = pre ++ (serNote n ++ post) ∧ pre.length = 120 + (serNotes done).length ∧
+      post.length = (serNotes rest).length + e.tail.length := by
+  refine ⟨serHeader e ++ (serPhdr e ++ serNotes done), serNotes rest ++ e.tail, ?_, ?_, ?_⟩
+  · unfold ser
+    rw [hn, serNotes_append, serNotes_cons]
+    simp only [List.append_assoc]
+  · simp [serHeader_length, serPhdr_length]; omega
+  · simp
+
+theorem parseNote_at (l pre post : Bytes) (n : GnuNote) (wbase wlen start : Nat)
+    (hl : l = pre ++ (serNote n ++ post)) (hb : wbase + start = pre.length)
+    (h1 : start ≤ wlen) (h2 : (serNote n).length ≤ wlen - start) (hfit : wbase + wlen ≤ l.length)
+    (ht : n.ntype < 256 ^ 4) (hd : n.desc.length < 256 ^ 4) :
+    parseNote (Blob.ofList l) false ⟨wbase, wlen⟩ start 4 = some (noteRec (wbase + start) n) := by
+  have hsn := serNote_length n
+  rw [hb]
+  -- header fields of the note
+  have rd : ∀ o k, o + k ≤ wlen - start →
+      rdInt (Blob.ofList l) false ⟨pre.length, wlen - start⟩ o k = some (fieldAt (serNote n ++ post) o k) := by
+    intro o k h
+    have h1 := rdInt_ofList l ⟨pre.length, wlen - start⟩ o k h (by simp only; omega)
+    rw [h1]
+    simp only
+    rw [hl, fieldAt_pre]
+  have f1 : fieldAt (serNote n ++ post) 0 4 = 4 := by
+    unfold serNote; simp only [List.append_assoc]; walk_field
+  have f2 : fieldAt (serNote n ++ post) 4 4 = n.desc.length := by
+    unfold serNote; simp only [List.append_assoc]; walk_field
+  have f3 : fieldAt (serNote n ++ post) 8 4 = n.ntype := by
+    unfold serNote; simp only [List.append_assoc]; walk_field
+  -- the owner name
+  have hname : (Blob.ofList l).slice (pre.length + 12) 3 = [0x47, 0x4e, 0x55] := by
+    rw [slice_ofList _ _ _ (by omega), hl, sliceAt_pre]
+    unfold serNote
+    simp only [List.append_assoc]
+    rw [sliceAt_skip _ _ _ _ (by simp), sliceAt_skip _ _ _ _ (by simp), sliceAt_skip _ _ _ _ (by simp)]
+    simp [sliceAt]
+  have hutf : utf8Valid (Blob.ofList l) (pre.length + 12 + 3) (3 + 1) (pre.length + 12) = true :=
+    utf8Valid_ascii _ 3 (pre.length + 12) 4 (by omega) (by show _ ≤ l.length; omega) (by
+      rw [hname]; intro x hx; simp at hx; rcases hx with rfl | rfl | rfl <;> decide)
+  unfold parseNote
+  simp only [show ¬ (4 < 4) by omega, ↓reduceIte, bne_self_eq_false, Bool.false_and, Bool.false_eq_true, hb]
+  simp only [rd 0 4 (by omega), rd 4 4 (by omega), rd 8 4 (by omega), f1, f2, f3, Option.bind_eq_bind, Option.bind_some,
+    Option.pure_def]
+  have h12 : ¬ (4 - 1 > wlen - start - 12) := by omega
+  simp only [h12, ↓reduceIte, hutf, Bool.not_true, Bool.false_eq_true, show (4 : Nat) > 0 by omega, alignUp4]
+  have hp16 : pad4 (12 + (4 - 1) + 1) = 0 := by decide
+  simp only [hp16, Nat.add_zero]
+  have h16 : ¬ (12 + (4 - 1) + 1 > wlen - start) := by omega
+  have hds : ¬ (n.desc.length > wlen - start - (12 + (4 - 1) + 1)) := by omega
+  simp only [h16, hds, ↓reduceIte]
+  simp only [noteRec, Option.some.injEq, Note.mk.injEq]
+  refine ⟨trivial, trivial, trivial, trivial, trivial, ?_⟩
+  rw [hsn, show 12 + 4 + n.desc.length = 16 + n.desc.length by omega, pad4_add16]
+
+def recsFrom : Nat → List GnuNote → List Note
+  | _, [] => []
+  | base, n :: r => noteRec base n :: recsFrom (base + (serNote n).length) r
+
+theorem allNotes_ser (l pre0 tail : Bytes) (done rest : List GnuNote) (wbase : Nat)
+    (hl : l = pre0 ++ (serNotes (done ++ rest) ++ tail)) (hb : wbase = pre0.length)
+    (hwf : ∀ n ∈ rest, n.ntype < 256 ^ 4 ∧ n.desc.length < 256 ^ 4) (fuel : Nat) (hfuel : rest.length + 1 ≤ fuel) :
+    allNotes (Blob.ofList l) false ⟨wbase, (serNotes (done ++ rest)).length⟩ 4 fuel (serNotes done).length =
+      recsFrom (wbase + (serNotes done).length) rest := by
+  induction rest generalizing done fuel with
+  | nil =>
+    cases fuel with
+    | zero => omega
+    | succ fuel => simp [allNotes, recsFrom]
+  | cons n r ih =>
+    cases fuel with
+    | zero => omega
+    | succ fuel =>
+      have hsn := serNote_length n
+      have hN : (serNotes (done ++ n :: r)).length = (serNotes done).length + (serNote n).length + (serNotes r).length := by
+        rw [serNotes_append, serNotes_cons]; simp; omega
+      have hlt : ¬ ((serNotes done).length ≥ (serNotes (done ++ n :: r)).length) := by omega
+      unfold allNotes
+      simp only [hlt, ↓reduceIte]
+      have hp := parseNote_at l (pre0 ++ serNotes done) (serNotes r ++ tail) n wbase (serNotes (done ++ n :: r)).length
+        (serNotes done).length (by rw [hl, serNotes_append, serNotes_cons]; simp only [List.append_assoc])
+        (by simp [hb]) (by omega) (by omega)
+        (by rw [hl]; simp only [List.length_append]; omega)
+        (hwf n (List.mem_cons_self ..)).1 (hwf n (List.mem_cons_self ..)).2
+      rw [hp]
+      simp only [recsFrom, noteRec]
+      congr 1
+      have hd' : (serNotes (done ++ [n])).length = (serNotes done).length + (serNote n).length := by
+        rw [serNotes_append]; simp [serNotes]
+      have := ih (done ++ [n]) (by rw [hl]; simp) (fun m hm => hwf m (List.mem_cons_of_mem _ hm)) fuel (by simp at hfuel ⊢; omega)
+      rw [show done ++ [n] ++ r = done ++ n :: r by simp, hd'] at this
+      rw [this]
+      congr 1
+      omega
+
+theorem name_at (l pre post : Bytes) (n : GnuNote) (hl : l = pre ++ (serNote n ++ post)) :
+    (Blob.ofList l).slice (pre.length + 12) 3 = gnuName := by
+  have hsn := serNote_length n
+  rw [slice_ofList _ _ _ (by rw [hl]; simp only [List.length_append]; omega), hl, sliceAt_pre]
+  unfold serNote
+  simp only [List.append_assoc]
+  rw [sliceAt_skip _ _ _ _ (by simp), sliceAt_skip _ _ _ _ (by simp), sliceAt_skip _ _ _ _ (by simp)]
+  simp [sliceAt, gnuName]
+
+theorem desc_at (l pre post : Bytes) (n : GnuNote) (hl : l = pre ++ (serNote n ++ post)) :
+    (Blob.ofList l).slice (pre.length + 16) n.desc.length = n.desc := by
+  have hsn := serNote_length n
+  rw [slice_ofList _ _ _ (by rw [hl]; simp only [List.length_append]; omega), hl, sliceAt_pre]
+  unfold serNote
+  simp only [List.append_assoc]
+  rw [sliceAt_skip _ _ _ _ (by simp), sliceAt_skip _ _ _ _ (by simp), sliceAt_skip _ _ _ _ (by simp),
+    sliceAt_skip _ _ _ _ (by simp)]
+  simp only [le_length, List.length_cons, List.length_nil, Nat.reduceSub, Nat.reduceAdd]
+  exact sliceAt_head _ _ _ rfl
+
+theorem find_ser (l pre0 tail : Bytes) (done rest : List GnuNote) (wbase : Nat)
+    (hl : l = pre0 ++ (serNotes (done ++ rest) ++ tail)) (hb : wbase = pre0.length) :
+    ((recsFrom (wbase + (serNotes done).length) rest).find? (isGnuBuildId (Blob.ofList l))).map
+        (fun r => (Blob.ofList l).slice r.descOff r.descLen) =
+      (rest.find? (fun n => n.ntype == 3)).map (·.desc) := by
+  induction rest generalizing done with
+  | nil => simp [recsFrom]
+  | cons n r ih =>
+    have hsplit : l = (pre0 ++ serNotes done) ++ (serNote n ++ (serNotes r ++ tail)) := by
+      rw [hl, serNotes_append, serNotes_cons]; simp only [List.append_assoc]
+    have hpl : (pre0 ++ serNotes done).length = wbase + (serNotes done).length := by simp [hb]
+    have hname := name_at l _ _ n hsplit
+    have hdesc := desc_at l _ _ n hsplit
+    rw [hpl] at hname hdesc
+    simp only [recsFrom, List.find?_cons]
+    have hg : isGnuBuildId (Blob.ofList l) (noteRec (wbase + (serNotes done).length) n) = (n.ntype == 3) := by
+      unfold isGnuBuildId noteRec
+      simp only [hname, BEq.rfl, Bool.and_true]
+    rw [hg]
+    cases h3 : (n.ntype == 3) with
+    | true =>
+      simp only [Option.map_some, noteRec, hdesc]
+    | false =>
+      simp only
+      have hd' : (serNotes (done ++ [n])).length = (serNotes done).length + (serNote n).length := by
+        rw [serNotes_append]; simp [serNotes]
+      have := ih (done ++ [n]) (by rw [hl]; simp)
+      rw [hd', ← Nat.add_assoc] at this
+      exact this
+
+theorem serNotes_length_ge (ns : List GnuNote) : 16 * ns.length ≤ (serNotes ns).length := by
+  induction ns with
+  | nil => simp [serNotes]
+  | cons n r ih =>
+    rw [serNotes_cons, List.length_append, serNote_length, List.length_cons]; omega
+
+/-- **C14 (round trip, build id).** For every 64-bit little-endian image with one PT_NOTE segment holding any
+    list of GNU-owned notes (any types, any descriptors) followed by anything at all, the reader returns
+    the descriptor of the first NT_GNU_BUILD_ID note. -/
+theorem C14_roundtrip_buildid (e : NoteElf) (he : e.entry < 256 ^ 8) (hN : 120 + (serNotes e.notes).length < 2 ^ 64)
+    (hwf : ∀ n ∈ e.notes, n.ntype < 256 ^ 4 ∧ n.desc.length < 256 ^ 4) (d : Bytes)
+    (hd : (e.notes.find? (fun n => n.ntype == 3)).map (·.desc) = some d) :
+    readBuildId (Blob.ofList (ser e)) = .ok d := by
+  have h256 : (256 : Nat) ^ 8 = 2 ^ 64 := by decide
+  apply C14_buildid_is_gnu_note _ noteHdr #[notePhdr e] d (parseHeader_ser e he) (readProgramHeaders_ser e (by omega))
+  have hlen := ser_length e
+  have hm : memRead (Blob.ofList (ser e)) 120 (serNotes e.notes).length = .ok ⟨120, (serNotes e.notes).length⟩ := by
+    unfold memRead
+    simp only [Blob.ofList, Bool.false_eq_true, ↓reduceIte]
+    have h1 : ¬ (120 + (serNotes e.notes).length ≥ 2 ^ 64) := by omega
+    have h2 : 120 + (serNotes e.notes).length ≤ (ser e).length := by omega
+    simp [h1, h2]
+  have hl : ser e = (serHeader e ++ serPhdr e) ++ (serNotes ([] ++ e.notes) ++ e.tail) := by
+    simp [ser]
+  have hfuel : e.notes.length + 1 ≤ (serNotes e.notes).length / 12 + 2 := by
+    have := serNotes_length_ge e.notes; omega
+  have hall := allNotes_ser (ser e) (serHeader e ++ serPhdr e) e.tail [] e.notes 120 hl
+    (by simp [serHeader_length, serPhdr_length]) hwf _ hfuel
+  have hfind := find_ser (ser e) (serHeader e ++ serPhdr e) e.tail [] e.notes 120 hl
+    (by simp [serHeader_length, serPhdr_length])
+  simp only [List.nil_append, serNotes, List.flatMap_nil, List.length_nil, Nat.add_zero] at hall hfind
+  unfold fileBuildId
+  simp only [Array.toList, notePhdr, List.filter_cons, BEq.rfl, ↓reduceIte, List.filter_nil, List.findSome?_cons,
+    List.findSome?_nil]
+  unfold segmentBuildId
+  simp only [hm, noteHdr]
+  have hall' : allNotes (Blob.ofList (ser e)) false ⟨120, (serNotes e.notes).length⟩ 4
+      ((serNotes e.notes).length / 12 + 2) 0 = recsFrom 120 e.notes := by
+    simpa [serNotes] using hall
+  rw [hall']
+  have hfind' : ((recsFrom 120 e.notes).find? (isGnuBuildId (Blob.ofList (ser e)))).map
+      (fun r => (Blob.ofList (ser e)).slice r.descOff r.descLen) = some d := by
+    rw [← hd]; simpa [serNotes] using hfind
+  rw [hfind']
+
+-- non-vacuity: an ABI-tag note, then a 20-byte build id, then junk
+example : readBuildId (Blob.ofList (ser ⟨0x1040, [⟨1, [0, 0, 0, 0, 3, 0, 0, 0, 2, 0, 0, 0, 0, 0, 0, 0]⟩,
+    ⟨3, [1, 2, 3, 4, 5, 6, 7, 8, 9, 10, 11, 12, 13, 14, 15, 16, 17, 18, 19, 20]⟩], [0xde, 0xad]⟩)) =
+    .ok [1, 2, 3, 4, 5, 6, 7, 8, 9, 10, 11, 12, 13, 14, 15, 16, 17, 18, 19, 20] := by
+  apply C14_roundtrip_buildid
+  · decide
+  · decide
+  · intro n hn; simp at hn; rcases hn with rfl | rfl <;> (constructor <;> decide)
+  · decide
 
 /-! ### the hypotheses are satisfiable: the small ELF of the crate's own unit tests -/
 
